@@ -227,6 +227,7 @@ func propC18(c c18Case) *Outcome {
 			cl.Copy(new(httpgrpc.HttpTrailer), bad)
 			cl.Copy(dynamic.NewMessage(c18Desc("msg")), bad)
 			cl.Copy(&c18NonProto{}, bad)
+			cl.Clone(bad) // the same adapter instance has cloned a dynamic message of another type before
 		}()
 	}
 	src := c.Src.build()
